@@ -98,7 +98,11 @@ def r19_3(ctx):
     cases = [("empty list", [], "E"), ("only Empty entries", [E, E], "E"), ("one shape", [s1], ("copy", "s1")),
              ("Empty then one shape", [E, s1], ("copy", "s1")), ("one shape between Empty entries", [E, s1, E], ("copy", "s1")),
              ("two shapes", [s1, s2], ("inst", ["s1", "s2"])), ("two shapes and Empty", [s1, E, s2], ("inst", ["s1", "s2"])),
-             ("three shapes", [s3, s1, s2], ("inst", ["s3", "s1", "s2"]))]
+             ("three shapes", [s3, s1, s2], ("inst", ["s3", "s1", "s2"])),
+             # neighbouring Empty entries (a removal loop that walks the list it shortens skips the second one)
+             ("two neighbouring Empty entries, then a shape", [E, E, s1], ("copy", "s1")),
+             ("two shapes around two neighbouring Empty entries", [s1, E, E, s2], ("inst", ["s1", "s2"])),
+             ("three Empty entries", [E, E, E], "E")]
     for label, lst, want in cases:
         inst = Obj("INSTANCE")
 
